@@ -1,6 +1,7 @@
 import RulioModel.PatIndexWF
 import RulioModel.State
 import RulioModel.MatchSpec
+import RulioModel.Spec
 
 /-! # Specification vocabulary for the pattern index (C01)
 
@@ -12,7 +13,8 @@ theorems of `Props/C01.lean` are stated with:
 * `PI.Emb π E`     — the path `π` can be followed by `PI.search` on the event pairs `E`
                      (independently of what else is stored in the trie);
 * `IdxOK p`, `EvOK ev` — the fragments of patterns / events for which the index is complete;
-* `IdxSt`, `IOp`   — the index-relevant part of `IndexedState.add` / `rem` (histories).
+* `IdxSt`, `IOp`   — the index-relevant part of `IndexedState.add` / `rem` (abstract histories);
+* `StIdx`, `IReach` — the rule-index invariant of the state model `St` and its reachable indexed states.
 -/
 
 /-- the pairs an array value contributes: one pair per element, same key -/
@@ -20,6 +22,7 @@ abbrev elems (k : String) (xs : List J) : List (String × J) := xs.map (fun x =>
 
 namespace PI
 
+set_option linter.unusedVariables false in
 /-- The edges `PI.mod` walks for `pairs`: `str k' :: str (cast x)` for a constant, `str k' :: var` for a
 variable, `str k' :: map ::` followed by the map's sorted pairs and then the remaining outer pairs; an
 array contributes one pair per sorted element with the same key and no edge of its own.
@@ -199,6 +202,26 @@ def IdxSt.run (s : IdxSt) (ops : List IOp) : IdxSt := ops.foldl IdxSt.step s
 /-- every indexed rule's id sits on the node at the end of its pattern's path -/
 def PI.Indexed (ri : PI) (rules : List (String × Obj)) : Prop :=
   ∀ id p, amGet rules id = some p → ∃ π, PI.path (mapToPairs p) = some π ∧ id ∈ ri.idsAt π
+
+/-- **the rule-index invariant of the indexed state**: id lists are duplicate free, and every stored,
+non-scheduled rule (`whenOf`, the notion the dispatch specification `specDispatchLocal` uses) has its id on
+the node at the end of its `when` pattern's path -/
+def StIdx (s : St) : Prop :=
+  PI.NodupIds s.ri ∧
+  ∀ id fact pat, amGet s.facts id = some fact → whenOf fact = some pat →
+    ∃ π, PI.path (mapToPairs pat) = some π ∧ id ∈ s.ri.idsAt π
+
+/-- the states reachable from the empty indexed state by the operations of `IndexedState`
+(`add`, `rem` with its `deleteWith` cascade, `get`, `search` and `findRules` with their expiry side effects,
+`clear`), with arbitrary arguments, clocks and recursion budgets -/
+inductive IReach : St → Prop
+  | init : IReach { kind := .indexed }
+  | add (s given x now) : IReach s → IReach (s.iAdd given x now).1
+  | rem (s fuel id now) : IReach s → IReach (St.irem fuel s id now).1
+  | get (s id now) : IReach s → IReach (s.iGet id now).1
+  | search (s fuel p now) : IReach s → IReach (St.isearch fuel s p now).1
+  | findRules (s ev now) : IReach s → IReach (s.iFindRules ev now).1
+  | clear (s) : IReach s → IReach s.clear
 
 /-- reading a search result -/
 def foundIn (r : Except PErr (List String)) (id : String) : Bool :=
